@@ -122,3 +122,30 @@ def _(gene_regions, cn_region, genome):
                                                        (g, r, i) in gene_regions and gene_regions[(g, r, i)] == old(gene_regions[(g, r, i)]))),
             label="gene-regions-untouched")
     modifies(gene_regions)
+
+
+# C06: what Sample._parse_read records for ONE insertion operation of the CIGAR string (slice inside the
+# `elif op == 1:` branch of its CIGAR loop). The deletion branch (`for i in range(size): muts[start + i, '-'].append`)
+# needs keyed appends inside a summarised loop, which the VC generator does not support: bounded native contract only.
+
+@contract("aldy.sam.Sample._parse_read@insertion-op", native=False)
+def _(self, size, start, s_start, seq, qual, mq, prev_q, norm, muts, phase, dump_arr, bin_quality):
+    types(self="Sample", size="int", start="int", s_start="int", seq="str", qual="Optional[List[float]]", mq="float", prev_q="float",
+          norm="DefaultDict[int, List[Tuple[float, float]], 'list']",
+          muts="DefaultDict[Tuple[int, str], List[Tuple[float, float]], 'list']",
+          phase="Dict[int, str]", dump_arr="List[Tuple[int, str]]", bin_quality="Callable[[float], float]")
+    # htslib: an operation has a positive length and the read's sequence / qualities cover all query-consuming operations
+    requires(size >= 1, 0 <= s_start, mq >= 0, prev_q >= 0, s_start + size <= len(seq), qual is None or s_start + size <= len(qual))
+    # long-read indel bookkeeping (Sample._realign_indels): every equivalence points at a site with its two counters
+    requires(forall(lambda p=int, o=str: implies((p, o) in self._indel_sites_eqs, self._indel_sites_eqs[(p, o)] in self._indel_sites
+                                                 and len(self._indel_sites[self._indel_sites_eqs[(p, o)]]) == 2)))
+    ins = (start, "ins" + seq[s_start:s_start + size])
+    # C06: "soft clips and insertions consume no reference": no non-insertion observation anywhere, the reference
+    # cursor stays, the read cursor moves over the inserted bases; the insertion itself is observed once
+    ensures(forall(lambda p=int: implies(p in old(norm), p in norm and norm[p] == old(norm[p]))), label="no-reference-observation")
+    ensures(forall(lambda p=int: (p in norm) == (p in old(norm))), label="no-reference-entry-created")
+    ensures(ins in muts and len(muts[ins]) == old(len(muts[ins]) if ins in muts else 0) + 1, label="insertion-observed-once")
+    ensures(forall(lambda p=int, o=str: implies((p, o) in old(muts) and (p, o) != ins, (p, o) in muts and muts[(p, o)] == old(muts[(p, o)]))),
+            label="other-cells-untouched")
+    ensures(result[0] == start and result[1] == s_start + size, label="cursors")
+    modifies(muts, phase, dump_arr, self._indel_sites)
